@@ -30,7 +30,7 @@ Inductive vres := VSame | VConv (w : atom) | VReject | VRaise.
    returning r (a new reference) / raising *)
 Inductive dflt := DConst (d : atom) | DCall (r : option atom).
 Inductive post := PNone | POk | PRaise.
-Inductive kind := KTrait | KEvent.
+Inductive kind := KTrait | KEvent | KProp.
 
 Record tcfg := {
   t_kind : kind;
@@ -172,7 +172,7 @@ Definition do_get (c : cfg) (t : tcfg) (d : dict) (n : Z) : res :=
   | None =>
       match t_kind t with
       | KEvent => mk d (Raise AttributeError) 0 [] None                (* getattr_event *)
-      | KTrait => getattr_trait c t d n []
+      | _ => getattr_trait c t d n []
       end
   end.
 
@@ -263,16 +263,64 @@ Definition delattr_trait (c : cfg) (t : tcfg) (d : dict) (n : Z) : res :=
       else mk d1 Ok 0 (dec o l2) None                                  (* 2441 *)
   end.
 
+(* ---------- property traits ----------
+   getattr_property1 2113-2126 (fget(obj)), setattr_property2 2716-2738 (fset(obj, value)),
+   setattr_validate_property 2766-2785 (validated = trait->validate(...); post_setattr(validated);
+   Py_DECREF(validated)), set_delete_property_error.  Configuration reuses the trait record:
+   t_dflt = DCall None: the getter raises, otherwise it returns the shadow attribute (or None);
+   t_post = POk: the setter stores its argument in the shadow attribute `_pv<n>` of the instance
+   dict (a reference the state legitimately holds), PNone: drops it, PRaise: raises;
+   t_has_validate / t_vld: the property's validator. *)
+Definition shadow (n : Z) : Z := n + 1000.
+
+Definition getattr_prop (c : cfg) (t : tcfg) (d : dict) (n : Z) : res :=
+  let l1 := inc (c_obj c) [] in                                       (* PyTuple_Pack(1, obj) *)
+  match t_dflt t with
+  | DCall None => mk d (Raise UserExn) 0 (dec (c_obj c) l1) None       (* the getter raises *)
+  | _ => let r := match lookup d (shadow n) with Some v => v | None => A_NONE end in
+         mk d Ok 0 (dec (c_obj c) (inc r l1)) (Some r)                 (* result: new reference *)
+  end.
+
+Definition run_setter (c : cfg) (t : tcfg) (d : dict) (n : Z) (v : atom) (l : ledger) : dict * bool * ledger :=
+  let l1 := inc (c_obj c) (inc v l) in                                 (* PyTuple_Pack(2, obj, value) *)
+  match t_post t with
+  | POk => (store d (shadow n) v, true, dec (c_obj c) (dec v (l_store d (shadow n) v l1)))
+  | PNone => (d, true, dec (c_obj c) (dec v l1))
+  | PRaise => (d, false, dec (c_obj c) (dec v l1))
+  end.
+
+Definition setattr_prop (c : cfg) (t : tcfg) (d : dict) (n : Z) (v : atom) : res :=
+  if t_has_validate t then
+    match validate t v [] with                                         (* 2777 *)
+    | (None, e, l1) => mk d (Raise e) 0 l1 None
+    | (Some w, _, l1) =>
+        let '(d', ok, l2) := run_setter c t d n w l1 in                (* 2781 *)
+        mk d' (if ok then Ok else Raise UserExn) 0 (dec w l2) None     (* 2783 *)
+    end
+  else
+    let '(d', ok, l2) := run_setter c t d n v [] in
+    mk d' (if ok then Ok else Raise UserExn) 0 l2 None.
+
+(* ---------- _trait_setstate 4907-4960, the object slots ----------
+   PyArg_ParseTuple stores BORROWED references to the seven objects of the state tuple directly into
+   the trait's fields (py_post_setattr, py_validate, default_value, delegate_name, delegate_prefix,
+   handler, obj_dict), then each is Py_INCREF'ed (4950-4956).  The previous contents of the fields are
+   not released.  [old] = what the trait held before, [new] = the objects of the state tuple. *)
+Definition setstate_ledger (old new : list atom) : ledger := fold_right inc [] new.
+Fixpoint held (slots : list atom) (a : atom) : Z :=
+  match slots with [] => 0 | x :: r => ind x a + held r a end.
+
 Definition do_op (c : cfg) (d : dict) (o : op) : res :=
   match o with
   | GetA n => match tlookup (c_traits c) n with
-              | Some t => do_get c t d n
+              | Some t => match t_kind t with KProp => getattr_prop c t d n | _ => do_get c t d n end
               | None => mk d (Raise AttributeError) 0 [] None
               end
   | SetA n v => match tlookup (c_traits c) n with
                 | Some t => match t_kind t with
                             | KTrait => setattr_trait c t d n v
                             | KEvent => setattr_event c t d v
+                            | KProp => setattr_prop c t d n v
                             end
                 | None => mk d (Raise AttributeError) 0 [] None
                 end
@@ -280,6 +328,7 @@ Definition do_op (c : cfg) (d : dict) (o : op) : res :=
               | Some t => match t_kind t with
                           | KTrait => delattr_trait c t d n
                           | KEvent => mk d Ok 0 [] None                 (* setattr_event, value == NULL *)
+                          | KProp => mk d (Raise TraitError) 0 [] None  (* set_delete_property_error *)
                           end
               | None => mk d (Raise AttributeError) 0 [] None
               end
